@@ -124,7 +124,8 @@ def run(prop, tier, *, tags=None, norm=False, opts=None, specs=None, extra=None)
                  "alphabet RUN(output x fresh_time gap), FAILRUN(every operation index x {exception/max_errors 0, exception/max_errors None, death}), "
                  "UPDATE(source), DELETE(stored value); plans are additionally built in other node/registry orders, and for selected plans every pop order of the 'random' scheduler "
                  "(one worker, all draws enumerated) is executed and cut at every operation; every transition executes the real uberjob.run on a freshly built plan/registry; "
-                 "states = canonical states summed over plans, transitions = events applied"),
+                 "states = canonical states summed over plans, transitions = events applied; plan family: every 1-2 slot plan + curated shapes (quick: a subset), "
+                 "thorough adds every 6th plan (fixed stride of the enumeration order) of the 3-slot family, those with the reduced set of cut runs"),
     }
     slow = sorted(res, key=lambda r: -r["secs"])[:3]
     cov["slowest_plans"] = [{"plan": e2.spec_str(r["spec"]), "secs": r["secs"], "states": r["states"]} for r in slow]
